@@ -57,7 +57,7 @@ def run(tier, replay):
         # session level on a sample
         interesting = [c for c in cases if 0 < len(c["served"]) < 9]
         rng.shuffle(interesting)
-        sample = interesting[:(25 if tier == "quick" else 150)]
+        sample = interesting[:(25 if tier == "quick" else 700)]
         sj, so = os.path.join(wd, "scases.json"), os.path.join(wd, "sout.json")
         json.dump([{"rules": [rule_str(x) for x in c["rules"]], "served": c["served"]} for c in sample], open(sj, "w"))
         ov2 = {"internal/server/handlers/vcommon_test.go": ("common/vcommon_test.go", "handlers"),
